@@ -42,7 +42,10 @@ def run_instance(inst, tier):
     if len(jds[0]) >= 2:
         res.flags.add("multi-topology")
     reference = {}
-    for path in PATHS[inst["kind"]]:
+    paths = list(PATHS[inst["kind"]])
+    if 2 <= inst["arrangements"] <= 24:
+        paths.append(f"{inst['kind']}-direct-twice")   # second generation on the same generator object
+    for path in paths:
         first = []
         sigs = {}
 
@@ -59,7 +62,7 @@ def run_instance(inst, tier):
         res.transitions += st.points + st.leaves
         res.revalidated += st.rechecked
         res.count(f"leaves:{path}", st.leaves)
-        if st.leaves != inst["arrangements"]:
+        if st.leaves != inst["arrangements"] and not path.endswith("twice"):
             res.count("instances_where_leaves_differ_from_multiset_arrangements")
         if first:
             (key, msg), choices, calls = first[0]
@@ -67,7 +70,9 @@ def run_instance(inst, tier):
                           {k: inst[k] for k in ("kind", "cfg", "cfg_name", "jds")}, path=path, choices=choices,
                           calls=calls, snippet=gen_common.gen_snippet(
                               {k: inst[k] for k in ("kind", "cfg", "cfg_name", "jds")}, tier, path, calls))
-        kind, how = path.split("-")
+        kind, how = path.split("-")[:2]
+        if path.endswith("twice"):
+            continue
         if how == "direct":
             reference[kind] = sigs
         elif not first and reference.get(kind) is not None and reference[kind] != sigs:
